@@ -30,7 +30,11 @@ type c16Cycle struct {
 	Kill  string `json:"kill"`  // "self": child kills itself right after ack K; "parent": parent kills when it has read ack K; "delay": parent kills after DelayMs; "none": child exits normally without Close
 	K     int    `json:"k"`
 	Delay int    `json:"delay"` // ms
-	Big   int    `json:"big"`   // payload size class of the K-th write (0 small, 1 ~20 KB, 2 ~100 KB)
+	Big   int    `json:"big"`   // payload size class of the K-th write (0 small, 1 ~20 KB, 2 ~100 KB; 3: all writes of the cycle ~100 KB)
+	// NoVerify: the parent does not reopen the store after this kill (its reopen ends with a graceful Close, which
+	// flushes everything): the next child then opens a directory that was killed twice in a row, possibly while
+	// the previous incarnation was still recovering
+	NoVerify bool `json:"noverify,omitempty"`
 }
 
 type c16Case struct {
@@ -80,6 +84,9 @@ func TestVerif_C16_Child(t *testing.T) {
 		b := 0
 		if i == k {
 			b = big
+		}
+		if big == 3 { // every write of this cycle is large: recovery of this cycle's log takes a while
+			b = 2
 		}
 		v := c16Write(seed, cycle, i, idspace, b)
 		bs, _ := v.Marshal()
@@ -192,13 +199,27 @@ func runC16(c c16Case) (*vh.Violation, vh.Outcome) {
 			out.NonTrivial = true
 		}
 		out.Labels = append(out.Labels, "kill:"+cy.Kill)
-		// ---- verify
+		if cy.NoVerify && ci < len(c.Cycles)-1 {
+			out.Labels = append(out.Labels, "back-to-back-kill")
+			continue
+		}
+		// ---- verify: every lookup is made first and the results are held, then they are judged (a lookup must hand
+		// out bytes that stay what they are while later lookups run)
 		d, err := Open(dir)
 		if err != nil {
 			return vh.V("C16/store-does-not-reopen", "cycle %d: reopening after the kill failed: %v", ci, err), out
 		}
-		for id, want := range m.lastAck {
+		type res struct {
+			b   []byte
+			err error
+		}
+		got := map[string]res{}
+		for id := range m.attempted {
 			b, err := d.GetSignedVAABytes(ids[id])
+			got[id] = res{b, err}
+		}
+		for id, want := range m.lastAck {
+			b, err := got[id].b, got[id].err
 			if err != nil {
 				_ = d.Close()
 				return vh.V("C16/acknowledged-write-lost", "cycle %d (%s after write %d): %s was acknowledged (sha %s) but lookup after kill+reopen says: %v", ci, cy.Kill, cy.K, id, want, err), out
@@ -213,7 +234,7 @@ func runC16(c c16Case) (*vh.Violation, vh.Outcome) {
 			}
 		}
 		for id, set := range m.attempted {
-			b, err := d.GetSignedVAABytes(ids[id])
+			b, err := got[id].b, got[id].err
 			if err == ErrVAANotFound {
 				continue
 			}
@@ -246,7 +267,8 @@ func genC16(t *rapid.T) c16Case {
 	cy := rapid.Custom(func(t *rapid.T) c16Cycle {
 		n := rapid.IntRange(1, 60).Draw(t, "n")
 		return c16Cycle{N: n, Kill: rapid.SampledFrom([]string{"self", "self", "self", "parent", "parent", "delay", "none"}).Draw(t, "kill"),
-			K: rapid.IntRange(0, n-1).Draw(t, "k"), Delay: rapid.IntRange(0, 300).Draw(t, "delay"), Big: rapid.SampledFrom([]int{0, 0, 1, 2}).Draw(t, "big")}
+			K: rapid.IntRange(0, n-1).Draw(t, "k"), Delay: rapid.IntRange(0, 300).Draw(t, "delay"), Big: rapid.SampledFrom([]int{0, 0, 0, 1, 1, 2, 2, 3}).Draw(t, "big"),
+			NoVerify: rapid.IntRange(0, 9).Draw(t, "noverify") < 4}
 	})
 	c.Cycles = rapid.SliceOfN(cy, 2, 6).Draw(t, "cycles")
 	return c
